@@ -1783,7 +1783,7 @@ def _stream_sequences(ctx, scale=1, full=False, stream_prefix="seq"):
             # quick tier: every template for the key link targets, a seed-dependent third of the rest
             fixed = [(t, c) for t, c in fixed
                      if (t.split(":", 1)[0] in ("collide", "patch") and t.split(":", 1)[1].encode() in KEY_TARGETS)
-                     or t == "modes" or ctx.rng.random() < 0.34]
+                     or t == "modes" or t.startswith("rcpatch:") and ":headers:" in t or ctx.rng.random() < 0.34]
         ctx.extra_cov["fixed_scenarios_run"] = len(fixed)
         for tag, case in fixed:
             run_scenario(ctx, w, stream_prefix + ".fixed", case, tag.split(":")[0], n)
